@@ -33,6 +33,15 @@ CLAIMED = {
  "C10": ("Hypothesis property-based testing + exhaustive enumeration of small layouts; oracle = one reference address function written from the TSL docstrings, against which every view (affine map, all_values/overlap/dense, bound/step ops interpreted, text round trip, from_strides/canonicalize, common contiguous block, subview pointer arithmetic) is compared",
          "Seven sub-properties, each comparing one view of a tiled-strided layout with the single reference addr(idx) on generated layouts (rank <= 4, depth <= 3, dynamic entries, offsets) and on the complete small-layout grid. Exploration level with an exhaustive sub-space.",
          TRUST + " The reference address function and the dynamic-step rule follow snaxc/ir/tsl/README.md and the class docstrings.", "4/C10"),
+ "C13": ("Hypothesis property-based testing; oracle = invariant over the multi-core history: the program is executed once per core, runs are split into epochs at cluster barriers, and no two accesses by different cores in one epoch may conflict (exact for barrier-synchronised code, no interleaving enumeration needed); all cores must pass the same barrier sites",
+         "Generated functions over shared buffers (copies, compute ops, views, deallocs, pre-existing barriers, loop nests with run-time trip counts 0..3; 2 and 3 cores) go through insert-sync-barrier, then dispatch-regions and snax-to-func; each stage is executed per core and checked for deadlock freedom (identical barrier sequences, no barrier under a core-id guard), race freedom per epoch, and program preservation. Exploration level.",
+         TRUST + " A barrier is a full fence; which core runs an op is fixed by the generator independently of dispatching_rules.py. One known finding (conflicts through distinct views of one root buffer) is classified by a narrow signature; conflicts through the same SSA value stay violations.", "4/C13"),
+ "C14": ("Hypothesis property-based testing; oracle = differential per core: for every core id the dispatched function's trace of tagged ops must equal the original trace filtered by the dispatch rule; pinning re-checked on the specialised functions",
+         "Generated functions (1..3 blocks, nested scf.for/scf.if, data-mover / compute / neutral ops at any depth, 2..5 cores) are dispatched with the real pass and executed once per core id; the pinned (function-constant-pinning) functions are executed too. Exploration level.",
+         TRUST + " Pinning is only checked on single-block functions (xDSL's pass raises on multi-block bodies).", "4/C14"),
+ "C15": ("Hypothesis property-based testing + enumerated grid (stages x op kinds x buffer assignments x trip counts); oracles = coverage multiset of (stage, iteration), range, epoch-rule race freedom on a two-core machine, data flow on symbolic buffer contents vs the sequential loop",
+         "Generated loops of the recognised shape (index ops, 2..4 barrier-separated stages of copies / kernels on shared L1 buffers, every accepted buffer-to-stage assignment, trip counts 0..8, lb/step variants through pipeline-canonicalize-for) are pipelined with construct-pipeline, pipeline-duplicate-buffers, unroll-pipeline and executed on a two-core epoch machine with symbolic buffer contents next to the sequential loop. Exploration level with an enumerated finite grid.",
+         TRUST + " NotImplementedError refusals of the passes are rejections. Four known findings on marginal input shapes (buffer read after the loop, read-modify-write outs, scalar stage operands, aliasing subviews) are classified by narrow signatures.", "4/C15"),
  "C16": ("Hypothesis property-based testing; oracle = exact rational row-space test / re-derived post-conditions on every yielded schedule; matcher compared with the exact test on constructed matching and perturbed pairs; small pairs exhaustively (thorough)",
          "Every schedule yielded by scheduler_backtrack on generated and realistic (gemmx/alu/xdma-like) template cases is checked for template fit, bounds, and the requested extra constraints, all in exact arithmetic independent of the SVD-based predicate under test; the matcher itself is compared with the exact decision. Exploration level with an exhaustive small sub-space.",
          TRUST + " Entries restricted to -16..16 and dims <= 5 so float artefacts of the SVD test on inputs no caller produces are not flagged.", "4/C16"),
